@@ -43,7 +43,7 @@ impl PropCase for Enc {
         }
         // iterator encoder: by value, by reference and over a source that is not fused
         for mode in 0..3u8 {
-            let es = run_encode_streaming(p, mode, 16);
+            let es = run_encode_streaming(p, mode, if mode == 0 { 400 } else { 16 });
             ensure!(
                 !es.hit_bound && es.bytes == want,
                 &format!("encode_streaming/mode{}", mode),
@@ -53,7 +53,7 @@ impl PropCase for Enc {
             ensure!(
                 es.late.is_empty(),
                 &format!("encode_streaming-ends/mode{}", mode),
-                "None on each of 16 further polls after the last byte",
+                "None on each of the 16..400 further polls after the last byte",
                 format!("yielded {:02x?} after the end", es.late)
             );
         }
